@@ -85,4 +85,21 @@ def flattenCT (t : ModT) (ranges idx : List Nat) (ncol : Nat) : CRes (Int × Int
 /-- glam.c as it is: `long moduli[]` -/
 def flattenC (ranges idx : List Nat) (ncol : Nat) : CRes (Int × Int) := flattenCT .long ranges idx ncol
 
+variable {α : Type} [A : Arith α]
+
+/-- the loop over the listed entries: `(trip->i[i], trip->j[i], trip->x[i])` as a dense position `row·ncol + col` -/
+def flatPositionsC (ranges : List Nat) (ncol : Nat) : List (List Nat × α) → CRes (List (Nat × α))
+  | [] => .ok []
+  | e :: es =>
+    match flattenC ranges e.1 ncol, flatPositionsC ranges ncol es with
+    | .ok rc, .ok l => .ok ((rc.1.toNat * ncol + rc.2.toNat, e.2) :: l)
+    | _, _ => .ub
+
+/-- `flatten_ndarray_to_sparse(array, nrow, ncol)` with the index arithmetic in the C types, followed by
+`triplet_to_sparse` (repeated cells are added up): the dense `nrow × ncol` table -/
+def flattenNdC (a : NdSparse α) (nrow ncol : Nat) : CRes (Tab2 α) :=
+  match flatPositionsC a.ranges ncol a.entries with
+  | .ok l => .ok ⟨nrow, ncol, accumulate (nrow * ncol) l⟩
+  | _ => .ub
+
 end PsV
